@@ -40,26 +40,70 @@ def run_world(acc, srv, key, monitor_factory, weights, nsteps, world_kw=None, hi
         st = world.step(op, quotes)
         for m in mons:
             m.on_step(st)
+    recent = []
     for _ in range(nsteps):
         op, quotes = gen.next()
         st = world.step(op, quotes)
         for m in mons:
             m.on_step(st)
+        recent.append(st)
+        if len(recent) > 80:
+            recent.pop(0)
     for m in mons:
         if hasattr(m, "on_end"):
             m.on_end()
+    world.recent = recent
     return world
 
 
+def canary_run(acc, world, monitor_factory, corruptions):
+    """Feed real recorded steps with one field corrupted to a fresh monitor; it must flag each one.
+    corruptions: {name: fn(world, step) -> corrupted Step or None}"""
+    from .core import Acc
+    from .world import Step
+    for name, fn in corruptions.items():
+        if acc.counters.get("canary_fired_" + name, 0) >= 3:
+            continue
+        for st in reversed(world.recent):
+            c = fn(world, Step(st.op, st.pre.clone(), st.post.clone(), dict(st.res), st.quotes, st.idx))
+            if c is None:
+                continue
+            scratch = Acc()
+            base = Acc()
+            for m in monitor_factory(world, base):
+                m.on_step(st)
+            if base.violations or base.known:
+                continue  # only corrupt events the monitor accepted as clean
+            for m in monitor_factory(world, scratch):
+                m.on_step(c)
+            acc.count("canary_tried_" + name)
+            if scratch.violations or scratch.known:
+                acc.count("canary_fired_" + name)
+            break
+
+
+def canary_floor(acc, names):
+    msgs = []
+    for n in names:
+        t, f = acc.counters.get("canary_tried_" + n, 0), acc.counters.get("canary_fired_" + n, 0)
+        if t == 0:
+            msgs.append("canary %s never applicable" % n)
+        elif f != t:
+            msgs.append("canary %s silent (%d/%d)" % (n, f, t))
+    return msgs
+
+
 def run_worlds(acc, prop, tier, seed, shard, nshards, monitor_factory, weights, n_worlds, steps,
-               world_kw=None, hist_kw=None, pre_hook=None):
+               world_kw=None, hist_kw=None, pre_hook=None, corruptions=None):
     srv = Server()
     try:
         for wi in range(n_worlds):
             key = (seed, prop, tier, shard, wi)
             rng = sub_rng("len", *key)
             n = rng.randrange(steps[0], steps[1] + 1)
-            run_world(acc, srv, key, monitor_factory, weights, n, world_kw, hist_kw, pre_hook)
+            world = run_world(acc, srv, key, monitor_factory, weights, n, world_kw, hist_kw, pre_hook)
             acc.count("worlds")
+            if corruptions:
+                canary_run(acc, world, monitor_factory, corruptions)
     finally:
         srv.close()
